@@ -341,6 +341,20 @@ class SegmentAnalysis:
                                 st.forget_var(x)
                                 st.d.assign_var_plus(x, y, c + aa[1])
                             return
+            if rv["k"] == "binop" and rv["op"] in ("Add", "Sub"):
+                # release profile: unchecked arithmetic – exact only where wrapping is excluded by the current state
+                aa, cc = self.opnd_term(rv["a"]), self.opnd_term(rv["b"])
+                if aa and cc and cc[0] == "Z" and aa[0] != "Z":
+                    c = cc[1] if rv["op"] == "Add" else -cc[1]
+                    safe = st.d.entails("Z", aa[0], aa[1] + c) if c < 0 else st.d.entails(aa[0], "Z", USIZE_MAX - c - aa[1])
+                    if safe:
+                        if aa[0] == x:
+                            st.shift_var(x, c + aa[1])
+                            st.d.assign_var_plus(x, x, c + aa[1])
+                        else:
+                            st.forget_var(x)
+                            st.d.assign_var_plus(x, aa[0], c + aa[1])
+                        return
             st.forget_var(x)
             st.d.havoc_unsigned(x)
             return
